@@ -144,12 +144,21 @@ std::string gen_ident(vh::Reader &rd, size_t len, bool lc_first)
 }
 
 // pool key: small alphabet so that collisions with members already present are frequent
-std::string pool_key(vh::Reader &rd)
+// the 40 pool keys: a..f, then "k", "k1", "k2", "k3" (proper prefixes of the others), then k10..k39
+std::string pool_name(unsigned i)
 {
-  unsigned i = rd.below(40);
   if (i < 6)
     return std::string(1, static_cast<char>('a' + i));
+  if (i == 6)
+    return "k";
+  if (i < 10)
+    return "k" + std::to_string(i - 6);
   return "k" + std::to_string(i);
+}
+
+std::string pool_key(vh::Reader &rd)
+{
+  return pool_name(rd.below(40));
 }
 
 struct GenKey
@@ -255,19 +264,9 @@ GenVal gen_val(vh::Reader &rd)
 // pool keys map to 0..39 (a..f, k6..k39); anything else to slot 63
 unsigned fnv_small(const std::string &k)
 {
-  if (k.size() == 1 && k[0] >= 'a' && k[0] <= 'f')
-    return static_cast<unsigned>(k[0] - 'a');
-  if (k.size() >= 2 && k[0] == 'k')
-  {
-    unsigned v = 0;
-    for (size_t i = 1; i < k.size(); ++i)
-    {
-      if (k[i] < '0' || k[i] > '9')
-        return 63;
-      v = v * 10 + static_cast<unsigned>(k[i] - '0');
-    }
-    return v < 40 ? v : 63;
-  }
+  for (unsigned i = 0; i < 40; ++i)
+    if (pool_name(i) == k)
+      return i;
   return 63;
 }
 
@@ -284,7 +283,7 @@ List gen_valid_list(vh::Reader &rd, size_t n)
   for (size_t i = 0; i < n && i < 40; ++i)
   {
     unsigned k      = order[i];
-    std::string key = k < 6 ? std::string(1, static_cast<char>('a' + k)) : "k" + std::to_string(k);
+    std::string key = pool_name(k);
     l.emplace_back(key, std::to_string(rd.below(10)));
   }
   return l;
@@ -633,9 +632,9 @@ VH_TARGET(ts_header, 5,
         {
           // a fresh valid member instead
           unsigned j = 0;
-          while (j < 40 && used[fnv_small(j < 6 ? std::string(1, static_cast<char>('a' + j)) : "k" + std::to_string(j))])
+          while (j < 40 && used[j])
             ++j;
-          k.key = j < 6 ? std::string(1, static_cast<char>('a' + j)) : "k" + std::to_string(j);
+          k.key = pool_name(j < 40 ? j : 0);
           k.cls = "pool";
           if (v.cls[0] == 'i')
             v.val = "v";
